@@ -22,28 +22,47 @@ EXTENDS Contract, SnapFile, Json, IOUtils
 Trace   == ndJsonDeserialize("trace.ndjson")
 OutFile == "result.json"
 
+
 VARIABLES
   l,        \* position in Trace
   bad,      \* mismatch records found so far
   drift,    \* impl-shaped model disagreements
   fs,       \* last projected directory state: [path -> file record]
+  pfs,      \* reference parse of every file of fs: [path -> Parse result]
   hid,      \* id of the current history
-  tainted,  \* a mismatch was already reported for this history (cascades are not reported)
+  tainted,  \* "" | "known" | "unknown": a mismatch was already found in this history; its root
+            \* carried a known-finding signature (cascades are dropped) or not (cascades are
+            \* reported, flagged casc, because they are consequences a user would see)
   program,  \* test names the scenario's program contains
   owner,    \* [standalone path -> test that owns it]
   stats,    \* counters of what was actually checked (evidence / vacuity)
   done
 
-vars == <<cvars, l, bad, drift, fs, hid, tainted, program, owner, stats, done>>
+vars == <<cvars, l, bad, drift, fs, pfs, hid, tainted, program, owner, stats, done>>
 
 E == Trace[l]
 IsEvent(k) == l <= Len(Trace) /\ Trace[l].ev = k /\ l' = l + 1
 
 SeqToSet(s) == {s[i] : i \in DOMAIN s}
-FsOf(seq)   == [p \in {seq[i].p : i \in DOMAIN seq} |->
-                  LET i == CHOOSE i \in DOMAIN seq : seq[i].p = p IN seq[i]]
+\* TLCEval forces the function to be built once; TLC otherwise re-evaluates the body of a
+\* function constructor at every application.
+FsOf(seq)   == TLCEval([p \in {seq[i].p : i \in DOMAIN seq} |->
+                  LET i == CHOOSE i \in DOMAIN seq : seq[i].p = p IN seq[i]])
 FileOf(f, p) == IF p \in DOMAIN f THEN [lines |-> f[p].lines, nl |-> f[p].nl] ELSE EmptyFile
 IsFile(f, p) == p \in DOMAIN f /\ f[p].kind = "file"
+
+(***************************************************************************)
+(* Constant-level preprocessing of the trace, evaluated ONCE by TLC when    *)
+(* the specification is loaded (definitions inside actions are re-evaluated *)
+(* at every reference): the projected directory of every event as a         *)
+(* function, and the reference parse of every file in it.                   *)
+(***************************************************************************)
+FS == TLCEval([i \in DOMAIN Trace |->
+         IF "fs" \in DOMAIN Trace[i] THEN FsOf(Trace[i].fs) ELSE <<>>])
+PARSED == TLCEval([i \in DOMAIN Trace |->
+         TLCEval([p \in {q \in DOMAIN FS[i] : FS[i][q].kind = "file"} |-> Parse(FileOf(FS[i], p))])])
+EmptyParse == Parse(EmptyFile)
+PF(pm, p) == IF p \in DOMAIN pm THEN pm[p] ELSE EmptyParse
 
 \* strings.Split(content, "\n") from the (lines, nl) representation
 VL(file) == IF file.lines = <<>> /\ ~file.nl THEN <<"">>
@@ -56,7 +75,16 @@ BaseName(p) == SubSeq(p, Len(DirName(p)) + 2, Len(p))
 
 MM(check, exp, got, st, path, hdr, info) ==
   [h |-> hid, l |-> l, check |-> check, exp |-> exp, got |-> got, st |-> st,
-   path |-> path, hdr |-> hdr, info |-> info, sig |-> ""]
+   path |-> path, hdr |-> hdr, info |-> info, sig |-> "", casc |-> FALSE]
+
+\* how mismatches of one event enter `bad`, and how the taint evolves
+Report(all) ==
+  IF tainted = "known" THEN bad
+  ELSE IF tainted = "unknown" THEN bad \o [i \in DOMAIN all |-> [all[i] EXCEPT !.casc = TRUE]]
+  ELSE bad \o all
+Taint(all) ==
+  IF tainted # "" \/ all = <<>> THEN tainted
+  ELSE IF \E i \in DOMAIN all : all[i].sig # "" THEN "known" ELSE "unknown"
 
 \* tag mismatch records with the known-finding signatures that hold at this event
 WithSig(mms, sig) == [i \in DOMAIN mms |-> [mms[i] EXCEPT !.sig = sig]]
@@ -75,25 +103,25 @@ Changed(f0, f1) ==
 (* History reset: contract state is the reference parse of the initial      *)
 (* directory (kinds given by the generator that wrote it).                  *)
 (***************************************************************************)
-InitSlots(f, multis) ==
-  LET pairs == UNION {{<<p, Parse(FileOf(f, p)).entries[i].h>> :
-                         i \in DOMAIN Parse(FileOf(f, p)).entries} : p \in multis}
-  IN  [k \in pairs |-> [vl |-> Unescape(BodyOf(Parse(FileOf(f, k[1])), k[2])), vid |-> "", known |-> TRUE, inj |-> FALSE]]
+InitSlots(pm, multis) ==
+  LET pairs == UNION {{<<p, h>> : h \in PF(pm, p).hs} : p \in multis}
+  IN  [k \in pairs |-> [vl |-> Unescape(BodyOf(PF(pm, k[1]), k[2])), vid |-> "", known |-> TRUE, inj |-> FALSE]]
 
 TraceReset ==
   /\ IsEvent("reset")
-  /\ LET f == FsOf(E.fs)
+  /\ LET f == FS[l]
          multis == {p \in DOMAIN f : f[p].role = "multi"}
          alones == {p \in DOMAIN f : f[p].role = "alone"}
-     IN  /\ fs' = f
-         /\ slot' = InitSlots(f, multis)
-         /\ order' = [p \in multis |-> Parse(FileOf(f, p)).order]
+     IN  /\ fs' = f /\ pfs' = PARSED[l]
+         /\ slot' = InitSlots(PARSED[l], multis)
+         /\ order' = [p \in multis |-> PF(PARSED[l], p).order]
          /\ alone' = [p \in alones |-> [vl |-> VL(FileOf(f, p)), vid |-> "", known |-> TRUE, inj |-> FALSE]]
          /\ owner' = [p \in {q \in alones : f[q].owner # ""} |-> f[p].owner]
-  /\ hid' = E.h /\ tainted' = FALSE
+  /\ hid' = E.h /\ tainted' = ""
   /\ program' = SeqToSet(E.program)
   /\ mode' = [ci |-> FALSE, updvar |-> "unset", count |-> 1, run |-> ""]
   /\ ord' = <<>> /\ sord' = <<>> /\ sused' = <<>> /\ addrM' = {} /\ addrS' = {}
+  /\ usedF' = {} /\ visitedD' = {}
   /\ cnt' = ZeroCnt /\ nskip' = 0 /\ ran' = {} /\ skipSet' = {} /\ fmtOf' = <<>>
   /\ stats' = Bump("histories")
   /\ UNCHANGED <<bad, drift, done>>
@@ -101,45 +129,44 @@ TraceReset ==
 TraceProc ==
   /\ IsEvent("proc")
   /\ CStart([ci |-> E.ci, updvar |-> E.updvar, count |-> E.count, run |-> E.run])
-  /\ UNCHANGED <<bad, drift, fs, hid, tainted, program, owner, stats, done>>
+  /\ UNCHANGED <<bad, drift, fs, pfs, hid, tainted, program, owner, stats, done>>
 
 TraceBegin ==
   /\ IsEvent("begin") /\ CBegin(E.t)
-  /\ UNCHANGED <<bad, drift, fs, hid, tainted, program, owner, stats, done>>
+  /\ UNCHANGED <<bad, drift, fs, pfs, hid, tainted, program, owner, stats, done>>
 
 \* cleanups must not write
 TraceEnd ==
   /\ IsEvent("end") /\ CEnd(E.t)
   /\ IF E.hasfs
-     THEN LET f1 == FsOf(E.fs) ch == Changed(fs, f1) IN
-          /\ fs' = f1
-          /\ bad' = IF ch # {} /\ ~tainted
-                    THEN Append(bad, MM("end.wrote", "", "", "", CHOOSE p \in ch : TRUE, "", ""))
-                    ELSE bad
-          /\ tainted' = (tainted \/ ch # {})
-     ELSE UNCHANGED <<fs, bad, tainted>>
+     THEN LET f1 == FS[l] ch == Changed(fs, f1) IN
+          /\ fs' = f1 /\ pfs' = PARSED[l]
+          /\ LET all == IF ch # {} THEN <<MM("end.wrote", "", "", "", CHOOSE p \in ch : TRUE, "", "")>> ELSE <<>> IN
+             /\ bad' = Report(all)
+             /\ tainted' = Taint(all)
+     ELSE UNCHANGED <<fs, pfs, bad, tainted>>
   /\ UNCHANGED <<drift, hid, program, owner, stats, done>>
 
 \* snaps.Skip*: exactly one "skipped" log, no error, nothing written
 TraceSkip ==
   /\ IsEvent("skip") /\ CSkip(E.t)
-  /\ bad' = IF (E.nerr # 0 \/ E.nlog # 1 \/ E.logk # "skipped") /\ ~tainted
-            THEN Append(bad, MM("skip.signal", "skipped", E.logk, "", "", "", ToString(E.nerr)))
-            ELSE bad
+  /\ LET all == IF E.nerr # 0 \/ E.nlog # 1 \/ E.logk # "skipped"
+                THEN <<MM("skip.signal", "skipped", E.logk, "", "", "", ToString(E.nerr))>> ELSE <<>> IN
+     /\ bad' = Report(all)
+     /\ tainted' = Taint(all)
   /\ stats' = Bump("skips")
-  /\ UNCHANGED <<drift, fs, hid, tainted, program, owner, done>>
+  /\ UNCHANGED <<drift, fs, pfs, hid, program, owner, done>>
 
 \* MatchSnapshot(t) without values: a warning log only; no ordinal, no outcome, no write
 TraceNoArgs ==
   /\ IsEvent("noargs")
-  /\ LET f1 == IF E.hasfs THEN FsOf(E.fs) ELSE fs
+  /\ LET f1 == IF E.hasfs THEN FS[l] ELSE fs
          ch == Changed(fs, f1)
          ok == E.nerr = 0 /\ E.nlog = 1 /\ ch = {} IN
-     /\ fs' = f1
-     /\ bad' = IF ~ok /\ ~tainted
-               THEN Append(bad, MM("noargs", "warning", E.logk, "", "", "", ToString(E.nerr)))
-               ELSE bad
-     /\ tainted' = (tainted \/ ~ok)
+     /\ fs' = f1 /\ pfs' = IF E.hasfs THEN PARSED[l] ELSE pfs
+     /\ LET all == IF ~ok THEN <<MM("noargs", "warning", E.logk, "", "", "", ToString(E.nerr))>> ELSE <<>> IN
+        /\ bad' = Report(all)
+        /\ tainted' = Taint(all)
   /\ UNCHANGED <<cvars, drift, hid, program, owner, stats, done>>
 
 (***************************************************************************)
@@ -160,10 +187,9 @@ CallOf(e) ==
 ExpectedBody(v) == Escape(v.vl)
 
 \* compare one multi-entry file with the contract's slots for it
-FileMismatches(f1, p, sl, od, target) ==
-  LET pr   == Parse(FileOf(f1, p))
-      hs   == {k[2] : k \in {k \in DOMAIN sl : k[1] = p}}
-      fhs  == {pr.entries[i].h : i \in DOMAIN pr.entries}
+FileMismatches(pr, p, sl, od, target) ==
+  LET hs   == {k[2] : k \in {k \in DOMAIN sl : k[1] = p}}
+      fhs  == pr.hs
   IN  (IF ~pr.wellformed THEN <<MM("file.malformed", "", "", "", p, "", "")>> ELSE <<>>)
    \o SetToSeq({MM("entry.missing", "", "", "", p, h, IF h = target THEN "target" ELSE "other") : h \in hs \ fhs})
    \o SetToSeq({MM("entry.extra", "", "", "", p, h, IF h = target THEN "target" ELSE "other") : h \in fhs \ hs})
@@ -192,11 +218,12 @@ TraceMatch ==
          sa   == Standalone(c)
          p    == IF sa THEN CallSPath(c) ELSE CallPath(c)
          hdr  == IF sa THEN "" ELSE CallHdr(c)
-         f1   == IF E.hasfs THEN FsOf(E.fs) ELSE fs
+         f1   == IF E.hasfs THEN FS[l] ELSE fs
+         pm1  == IF E.hasfs THEN PARSED[l] ELSE pfs
          ch   == Changed(fs, f1)
          seen == IF sa THEN (IF IsFile(f1, p) THEN VL(FileOf(f1, p)) ELSE <<>>)
-                 ELSE LET pr == Parse(FileOf(f1, p)) IN
-                      IF HasEntry(pr, hdr) THEN Unescape(BodyOf(pr, hdr)) ELSE <<>>
+                 ELSE LET pr == PF(pm1, p) IN
+                      IF hdr \in pr.hs THEN Unescape(BodyOf(pr, hdr)) ELSE <<>>
          outMM == IF got = "malformed"
                   THEN <<MM("outcome.malformed", exp, E.logk, st, p, hdr, ToString(E.nerr) \o "/" \o ToString(E.nlog))>>
                   ELSE IF exp # "any" /\ exp # got
@@ -213,7 +240,7 @@ TraceMatch ==
                   THEN <<MM("format.unstable", "", "", st, p, hdr, c.val.vid)>> ELSE <<>>
      IN
      /\ CMatch(c, eff, seen)
-     /\ fs' = f1
+     /\ fs' = f1 /\ pfs' = pm1
      /\ owner' = IF sa /\ Writes(eff) THEN Put(owner, p, c.test) ELSE owner
      /\ LET fsMM ==
               IF ~E.hasfs THEN <<>>
@@ -229,22 +256,22 @@ TraceMatch ==
                     THEN (IF ~IsFile(f1, p) THEN <<MM("alone.missing", "", "", st, p, "", "")>>
                           ELSE IF c.val.known /\ VL(FileOf(f1, p)) # c.val.vl
                           THEN <<MM("alone.value", "", "", st, p, "", "")>> ELSE <<>>)
-                    ELSE FileMismatches(f1, p, slot', order', hdr))
+                    ELSE FileMismatches(PF(pm1, p), p, slot', order', hdr))
             \* signatures of known findings, evaluated on this very event (DESIGN.md 7.3)
             adr  == Addressed(c)
             k1   == adr[1] /\ adr[2].known /\ c.val.known /\ Len(adr[2].vl) = Len(c.val.vl)
                     /\ adr[2].vl # c.val.vl
                     /\ \A i \in DOMAIN c.val.vl : adr[2].vl[i] = c.val.vl[i]
                                                   \/ {adr[2].vl[i], c.val.vl[i]} = {END, ESC}
-            pre  == Parse(FileOf(fs, p))
+            pre  == PF(pfs, p)
             k2   == ~sa /\ \E i \in DOMAIN pre.entries : \E j \in DOMAIN pre.entries[i].b :
                               pre.entries[i].b[j] = hdr
             sigs == (IF k1 THEN "K1 " ELSE "") \o (IF k2 THEN "K2 " ELSE "")
             all == WithSig(outMM \o nameMM \o detMM \o fsMM, sigs)
             pred == ImplPredict(fs, c, eff, hdr, p)
-        IN /\ bad' = IF tainted THEN bad ELSE bad \o all
-           /\ tainted' = (tainted \/ all # <<>>)
-           /\ drift' = IF E.hasfs /\ ~sa /\ all = <<>> /\ ~tainted /\ c.val.known
+        IN /\ bad' = Report(all)
+           /\ tainted' = Taint(all)
+           /\ drift' = IF E.hasfs /\ ~sa /\ all = <<>> /\ tainted = "" /\ c.val.known
                           /\ (pred.lines # FileOf(f1, p).lines \/ (Writes(eff) /\ pred.nl # FileOf(f1, p).nl))
                        THEN Append(drift, [h |-> hid, l |-> l, action |-> "Match." \o eff, path |-> p])
                        ELSE drift
@@ -262,38 +289,47 @@ CountIn(s, x) == Cardinality({i \in DOMAIN s : s[i] = x})
 TraceClean ==
   /\ IsEvent("clean")
   /\ LET f0 == fs
-         f1 == FsOf(E.fs)
+         f1 == FS[l]
          del == Deleting
          srt == CleanSorts(mode.ci, E.sort)
          sum == E.sum
-         usedM == {k[1] : k \in addrM}
-         visited == {DirName(p) : p \in usedM \cup addrS}
-         \* ---- entries of used multi-entry files
-         EntriesOf(f, p) == LET pr == Parse(FileOf(f, p)) IN {pr.entries[i].h : i \in DOMAIN pr.entries}
+         chg == Changed(f0, f1)
+         usedM == usedF
+         visited == visitedD
+         \* ---- entries of multi-entry files, parsed once per file and state
+         mfiles == usedM \cup {p \in DOMAIN order : p \in DOMAIN f0}
+         PP0 == [p \in mfiles |-> PF(pfs, p)]
+         PP1 == [p \in mfiles |-> PF(PARSED[l], p)]
+         EE0 == [p \in mfiles |-> PF(pfs, p).hs]
+         EE1 == [p \in mfiles |-> PF(PARSED[l], p).hs]
+         EntriesOf(f, p) == IF f = f0 THEN EE0[p] ELSE EE1[p]
          IsAddr(p, h) == <<p, h>> \in addrM
          Prot(h) == Protected(NameOfId(IdOfHeader(h)), program)
-         MustList(p) == IF mode.run # "" THEN {}
-                        ELSE {h \in EntriesOf(f0, p) : ~IsAddr(p, h) /\ ~Prot(h)}
-         MayList(p)  == {h \in EntriesOf(f0, p) : ~IsAddr(p, h) /\ ~Prot(h)}
-         ids == {IdOfHeader(h) : h \in UNION {EntriesOf(f0, p) : p \in usedM}} \cup SeqToSet(sum.tests)
-         ReqL(id) == Cardinality({p \in usedM : \E h \in MustList(p) : IdOfHeader(h) = id})
-         MaxL(id) == Cardinality({p \in usedM : \E h \in MayList(p) : IdOfHeader(h) = id})
+         MayL  == [p \in usedM |-> {h \in EE0[p] : ~IsAddr(p, h) /\ ~Prot(h)}]
+         MustL == [p \in usedM |-> IF mode.run # "" THEN {} ELSE MayL[p]]
+         MustList(p) == MustL[p]
+         MayList(p)  == MayL[p]
+         ids == {IdOfHeader(h) : h \in UNION {EE0[p] : p \in usedM}} \cup SeqToSet(sum.tests)
+         MustIds == [p \in usedM |-> {IdOfHeader(h) : h \in MustList(p)}]
+         MayIds  == [p \in usedM |-> {IdOfHeader(h) : h \in MayList(p)}]
+         ReqL(id) == Cardinality({p \in usedM : id \in MustIds[p]})
+         MaxL(id) == Cardinality({p \in usedM : id \in MayIds[p]})
          listMM ==
            SetToSeq({MM("clean.entry.unlisted", ToString(ReqL(id)), ToString(CountIn(sum.tests, id)), "", "", id, "")
                       : id \in {id \in ids : CountIn(sum.tests, id) < ReqL(id)}})
            \o SetToSeq({MM("clean.entry.overlisted", ToString(MaxL(id)), ToString(CountIn(sum.tests, id)), "", "", id,
-                           IF \E p \in usedM : \E h \in EntriesOf(f0, p) : IdOfHeader(h) = id /\ IsAddr(p, h)
+                           IF \E p \in usedM : \E h \in EE0[p] : IdOfHeader(h) = id /\ IsAddr(p, h)
                            THEN "addressed"
-                           ELSE IF \E p \in usedM : \E h \in EntriesOf(f0, p) : IdOfHeader(h) = id /\ Prot(h)
+                           ELSE IF \E p \in usedM : \E h \in EE0[p] : IdOfHeader(h) = id /\ Prot(h)
                            THEN "protected" ELSE "absent")
                       : id \in {id \in ids : CountIn(sum.tests, id) > MaxL(id)}})
          \* ---- post state of used files
          FileMM(p) ==
-           LET p0 == Parse(FileOf(f0, p))  p1 == Parse(FileOf(f1, p))
-               e0 == EntriesOf(f0, p)  e1 == EntriesOf(f1, p)
+           LET p0 == PP0[p]  p1 == PP1[p]
+               e0 == EE0[p]  e1 == EE1[p]
                removed == e0 \ e1
                listedH == {h \in e0 : CountIn(sum.tests, IdOfHeader(h)) > 0}
-               touched == p \in Changed(f0, f1)
+               touched == p \in chg
                survivorsOrder0 == SelectSeq(p0.order, LAMBDA h : h \in e1)
                sorted0 == IsNaturallySorted([i \in DOMAIN p0.order |-> IdOfHeader(p0.order[i])])
            IN  (IF IsFile(f0, p) /\ ~IsFile(f1, p) THEN <<MM("clean.file.removed", "", "", "", p, "", "used")>> ELSE <<>>)
@@ -316,11 +352,11 @@ TraceClean ==
             \o (IF touched /\ removed = {} /\ (~srt \/ sorted0) /\ e1 = e0
                 THEN <<MM("clean.needless_write", "", "", "", p, "", IF mode.ci THEN "ci" ELSE "")>> ELSE <<>>)
          \* ---- other files directly inside visited directories
-         cands == {p \in DOMAIN f0 : f0[p].kind = "file" /\ DirName(p) \in visited
-                                     /\ StrContains(BaseName(p), ".snap") /\ p \notin usedM /\ p \notin addrS}
+         cands == {p \in DOMAIN f0 : f0[p].kind = "file" /\ f0[p].dir \in visited
+                                     /\ StrContains(f0[p].base, ".snap") /\ p \notin usedM /\ p \notin addrS}
          FProt(p) ==
            \/ (p \in DOMAIN owner /\ Protected(owner[p], program))
-           \/ (p \in DOMAIN order /\ \E h \in EntriesOf(f0, p) : Prot(h))
+           \/ (p \in DOMAIN order /\ \E h \in EE0[p] : Prot(h))
          listedF == SeqToSet(sum.files)
          candMM ==
            SetToSeq({MM("clean.file.unlisted", "", "", "", p, "", "") :
@@ -335,15 +371,15 @@ TraceClean ==
            \o SetToSeq({MM("clean.file.kept", "", "", "", p, "", "") :
                           p \in {p \in cands : IsFile(f1, p) /\ del /\ p \in listedF /\ ~FProt(p)}})
            \o SetToSeq({MM("clean.file.modified", "", "", "", p, "", "") :
-                          p \in {p \in cands : IsFile(f1, p) /\ p \in Changed(f0, f1)}})
+                          p \in {p \in cands : IsFile(f1, p) /\ p \in chg}})
          \* ---- everything else must be untouched; addressed standalone files keep their bytes
          rest == (DOMAIN f0 \cup DOMAIN f1) \ (usedM \cup cands)
          restMM == SetToSeq({MM("clean.touched", "", "", "", p, "",
                                 IF p \in addrS THEN "addressed" ELSE "foreign")
-                             : p \in rest \cap Changed(f0, f1)})
+                             : p \in rest \cap chg})
          \* ---- CI: nothing at all may change
-         ciMM == IF mode.ci /\ Changed(f0, f1) # {}
-                 THEN <<MM("clean.ci_wrote", "", "", "", CHOOSE p \in Changed(f0, f1) : TRUE, "", "")>> ELSE <<>>
+         ciMM == IF mode.ci /\ chg # {}
+                 THEN <<MM("clean.ci_wrote", "", "", "", CHOOSE p \in chg : TRUE, "", "")>> ELSE <<>>
          \* ---- summary totals
          totMM ==
            (IF sum.passed # cnt.passed THEN <<MM("summary.total", ToString(cnt.passed), ToString(sum.passed), "", "", "", "passed")>> ELSE <<>>)
@@ -362,31 +398,31 @@ TraceClean ==
                    IF raw[i].hdr # "" /\ Char(raw[i].hdr, 1) = "[" /\ ~IsCleanHeader(raw[i].hdr)
                    THEN [raw[i] EXCEPT !.sig = "K6 "] ELSE raw[i]]
      IN
-     /\ fs' = f1
-     /\ bad' = IF tainted THEN bad ELSE bad \o all
-     /\ tainted' = (tainted \/ all # <<>>)
+     /\ fs' = f1 /\ pfs' = PARSED[l]
+     /\ bad' = Report(all)
+     /\ tainted' = Taint(all)
      /\ stats' = [stats EXCEPT !["cleans"] = @ + 1,
                                !["clean_stale_entries"] = @ + Cardinality(UNION {MayList(p) : p \in usedM}),
                                !["clean_stale_files"] = @ + Cardinality({p \in cands : ~FProt(p)}),
                                !["clean_protected"] = @ + Cardinality({p \in cands : FProt(p)})
-                                    + Cardinality(UNION {{h \in EntriesOf(f0, p) : ~IsAddr(p, h) /\ Prot(h)} : p \in usedM})]
+                                    + Cardinality(UNION {{h \in EE0[p] : ~IsAddr(p, h) /\ Prot(h)} : p \in usedM})]
   /\ UNCHANGED <<cvars, drift, hid, program, owner, done>>
 
 Finish ==
   /\ l = Len(Trace) + 1 /\ ~done
   /\ done' = TRUE
   /\ JsonSerialize(OutFile, [bad |-> bad, drift |-> drift, stats |-> stats, events |-> Len(Trace)])
-  /\ UNCHANGED <<cvars, l, bad, drift, fs, hid, tainted, program, owner, stats>>
+  /\ UNCHANGED <<cvars, l, bad, drift, fs, pfs, hid, tainted, program, owner, stats>>
 
 TraceInit ==
-  /\ l = 1 /\ bad = <<>> /\ drift = <<>> /\ fs = <<>> /\ hid = "" /\ tainted = FALSE
+  /\ l = 1 /\ bad = <<>> /\ drift = <<>> /\ fs = <<>> /\ pfs = <<>> /\ hid = "" /\ tainted = ""
   /\ program = {} /\ owner = <<>> /\ done = FALSE
   /\ stats = [histories |-> 0, calls |-> 0, passed |-> 0, failed |-> 0, added |-> 0, updated |-> 0,
               any |-> 0, state_checked |-> 0, skips |-> 0, cleans |-> 0,
               clean_stale_entries |-> 0, clean_stale_files |-> 0, clean_protected |-> 0]
   /\ mode = [ci |-> FALSE, updvar |-> "unset", count |-> 1, run |-> ""]
   /\ slot = <<>> /\ order = <<>> /\ alone = <<>> /\ ord = <<>> /\ sord = <<>> /\ sused = <<>>
-  /\ addrM = {} /\ addrS = {} /\ cnt = ZeroCnt /\ nskip = 0 /\ ran = {} /\ skipSet = {} /\ fmtOf = <<>>
+  /\ addrM = {} /\ addrS = {} /\ usedF = {} /\ visitedD = {} /\ cnt = ZeroCnt /\ nskip = 0 /\ ran = {} /\ skipSet = {} /\ fmtOf = <<>>
 
 TraceNext ==
   \/ TraceReset \/ TraceProc \/ TraceBegin \/ TraceEnd \/ TraceSkip \/ TraceNoArgs
